@@ -25,7 +25,8 @@ enum {
     SLU_VEV_PIVOT_IN,      /* a=jcol, b=nsupc, c=nsupr, p=verif pivot record */
     SLU_VEV_PIVOT_OUT,     /* a=jcol, b=pivrow, c=info */
     SLU_VEV_PRUNE,         /* a=jcol, b=irep, c=new xprune */
-    SLU_VEV_PRE_FINALIZE   /* p=GlobalLU_t* */
+    SLU_VEV_PRE_FINALIZE,  /* p=GlobalLU_t* */
+    SLU_VEV_ALLOC_ENTER    /* a=MemType, b=jcol, c=num: first statement inside the allocator's critical section */
 };
 #else
 #define SLU_VERIF_EV(ev, pnum, a, b, c, p)
